@@ -197,8 +197,45 @@ def replay_coll(recs):
     return out
 
 
+def replay_collmix(job):
+    """QuadricCollection of 3-space: plane pairs alone (components position by position), and plane pairs with an irreducible
+    degenerate quadric (cone, cylinder) or a non-degenerate one mixed in: the call must raise NotReducible, or at least not
+    report a pair of planes whose product is not the quadric at that position."""
+    g = import_geometer()
+    pairs, odd = job
+    out = []
+    mats = [np.array(r["r"]["M"], dtype=float) for r in pairs]
+    for name, extra in (("plane-pairs", []), ("irreducible-mixed-in", odd)):
+        ms = list(mats)
+        for k, q in enumerate(extra):
+            ms.insert((2 + 3 * k) % (len(ms) + 1), np.array(q["r"]["Q"], dtype=float))
+        site = f"QuadricCollection.components/3D/{name}"
+        try:
+            comps = g.QuadricCollection(np.array(ms)).components
+        except g.exceptions.NotReducible:
+            if extra:
+                continue
+            out.append(dict(site=site, stratum="pair", case={"count": len(ms)}, expected="components", observed="raised NotReducible"))
+            continue
+        except Exception as e:  # noqa: BLE001
+            out.append(dict(site=site, stratum="pair", case={"count": len(ms)}, expected="components" if not extra else "NotReducible",
+                            observed=f"raised {type(e).__name__}: {e}"))
+            continue
+        a, b = np.asarray(comps[0].array), np.asarray(comps[1].array)
+        for i, M in enumerate(ms):
+            prod = np.outer(a[i], b[i]) + np.outer(b[i], a[i])
+            if not same_class(prod.reshape(-1), M.reshape(-1), 1e-6):
+                out.append(dict(site=site, stratum=("pair" if not extra else "irreducible-degenerate"), case={"M": M.tolist(), "position": i},
+                                expected=("the two planes whose product is the quadric" if not extra else "NotReducible (no pair of planes has this product)"),
+                                observed=[str(a[i].tolist()), str(b[i].tolist())]))
+                break
+    return out
+
+
 def _work(job):
     try:
+        if job[0] == "collmix":
+            return replay_collmix(job[1])
         return replay(job[1]) if job[0] == "single" else replay_coll(job[1])
     except Exception:  # noqa: BLE001
         import traceback
@@ -228,6 +265,12 @@ def run(ctx: Ctx):
     jobs = [("single", recs[i:i + 200]) for i in range(0, len(recs), 200)]
     lp = [x for x in recs if x["r"]["t"] == "lines" and not x["r"]["same"]]
     jobs += [("coll", lp[i:i + 100]) for i in range(0, len(lp), 100)]
+    pp = [x for x in recs if x["r"]["t"] == "planes" and not x["r"]["same"]]
+    irr = [x for x in recs if x["r"]["t"] == "irreducible" and len(x["r"]["Q"]) == 4]
+    if len(pp) < 20 or not any(x["r"]["deg"] for x in irr) or not any(not x["r"]["deg"] for x in irr):
+        raise MachineryError("no plane pairs / no irreducible degenerate and non-degenerate quadrics of 3-space to mix (vacuous)")
+    for j, i in enumerate(range(0, len(pp), 6)):
+        jobs.append(("collmix", (pp[i:i + 6], [irr[j % len(irr)]] + ([irr[(j * 7 + 3) % len(irr)]] if j % 3 == 0 else []))))
     with Pool(16) as pool:
         results = pool.map(_work, jobs, chunksize=1)
     for res in results:
